@@ -78,6 +78,15 @@ theorem C03_eof_comments (eol : List Char) (lead : List Triv) (o : List Out)
     rw [← h, EofLemmas.commentsOut_of_allWs _ hall]; rfl
   · rw [← h, EofLemmas.commentsOut_append, EofLemmas.commentsOut_popWs]; simp [commentsOut]
 
+/-! ## no code ends up inside a comment: leading trivia -/
+
+/-- **the leading trivia of every formatted token is line-safe**: load_token_trivia puts each leading comment on a
+line of its own, so no line comment in front of a token can swallow that token - for trivia lists of any length. (The
+known swallowing cases, D23, all come from *trailing* comments that a later step joins with what follows.) -/
+theorem C03_leading_line_safe (eol : List Char) (t : List Triv) :
+    Semi.lineSafe (load eol .leading t) = true :=
+  LineSafe.load_leading_safe eol t
+
 /-! ## the semicolon: kept, added or removed (format_block) -/
 
 open StyluaModel.Semi in
